@@ -18,7 +18,7 @@ import (
 	"verif/harness/xt"
 )
 
-const c03Rule = "rapid: one stored, completed request (original request ID, consumer URL, RelayState, application id and the audience it maps to: strings of legal XML characters incl. & < > \" ' CR LF TAB, edge blanks, entity look-alikes, non-ASCII and astral characters) x a user record (each standard attribute set/unset, 0..3 custom attributes with 0..3 values incl. empty strings, friendly names and formats) x binding POST / Redirect x issuer (static with/without path and trailing slash, host-derived, Forwarded-derived) x metadata endpoint path x timestamp layout (default, RFC 3339, nanoseconds, seconds), driven through the callback endpoint. Oracle: field-for-field comparison of the decoded Success response with the storage model (InResponseTo on response and subject confirmation, Destination = Recipient, both Issuers, single Audience, NameID, attribute statement as a multiset with value lists in order, RelayState, NotBefore = IssueInstant inside the wall-clock bracket of the call, NotOnOrAfter - IssueInstant = 5 min, fresh distinct NCName IDs). Non-trivial: at least one compared string needs escaping or is non-ASCII. Distinct by (binding, set of fields with special characters, attribute-statement shape, configuration)."
+const c03Rule = "rapid: one stored, completed request (original request ID, consumer URL, RelayState, application id and the audience it maps to: strings of legal XML characters incl. & < > \" ' CR LF TAB, edge blanks, entity look-alikes, non-ASCII and astral characters) x a user record (each standard attribute set/unset, 0..3 custom attributes with 0..3 values incl. empty strings, friendly names and formats) x binding POST / Redirect x issuer (static with/without path and trailing slash, host-derived, Forwarded-derived) x metadata endpoint path x timestamp layout (default, RFC 3339, nanoseconds, seconds) x (one case in eight) a user lookup that fails, fails after filling part of the record, or fills the record and fails, driven through the callback endpoint. Oracle: field-for-field comparison of the decoded Success response with the storage model (InResponseTo on response and subject confirmation, Destination = Recipient, both Issuers, single Audience, NameID, attribute statement as a multiset with value lists in order, RelayState, NotBefore = IssueInstant inside the wall-clock bracket of the call, NotOnOrAfter - IssueInstant = 5 min, fresh distinct NCName IDs); with a failing lookup the comparison applies only if the reply is a Success response all the same. Non-trivial: at least one compared string needs escaping or is non-ASCII. Distinct by (binding, set of fields with special characters, attribute-statement shape, configuration)."
 
 type C03Case struct {
 	Noise   bool        `json:"noise,omitempty"`
@@ -26,6 +26,10 @@ type C03Case struct {
 	Host    string      `json:"host"`
 	Headers [][2]string `json:"headers,omitempty"`
 	Method  string      `json:"method"`
+	// Fault, when set, makes the user lookup of this callback misbehave ("error": fails; "partial": fills part of the record,
+	// then fails; "errval": fills the whole record and fails). The statement then only applies if the reply is a Success
+	// response all the same: it must still be exactly the user's data.
+	Fault string `json:"fault,omitempty"`
 }
 
 var timeFormats = []string{"", "", time.RFC3339, "2006-01-02T15:04:05.000000000Z", "2006-01-02T15:04:05Z", time.RFC3339Nano}
@@ -66,6 +70,9 @@ func genC03Case(t *rapid.T) C03Case {
 	c := C03Case{Noise: rapid.IntRange(0, 1).Draw(t, "noise") == 0, Spec: spec, Host: rapid.SampledFrom(reqHosts).Draw(t, "host"), Method: rapid.SampledFrom([]string{"GET", "POST"}).Draw(t, "method")}
 	if idp.IssuerMode == "forwarded" && rapid.Bool().Draw(t, "fwd") {
 		c.Headers = [][2]string{{"Forwarded", "for=192.0.2.1;host=" + rapid.SampledFrom([]string{"public.idp.example", "\"proxy.example:444\""}).Draw(t, "fwdhost")}}
+	}
+	if rapid.IntRange(0, 7).Draw(t, "faulty") == 0 {
+		c.Fault = rapid.SampledFrom([]string{"error", "partial", "errval"}).Draw(t, "fault")
 	}
 	return c
 }
@@ -319,11 +326,26 @@ func TestC03(t *testing.T) {
 		if c.Method == "POST" {
 			hr = obs.HTTPReq{Method: "POST", Path: c.Spec.IdP.Route("callback"), ContentType: "application/x-www-form-urlencoded", Body: "id=" + qesc(req.ID), Host: c.Host, Headers: c.Headers}
 		}
+		if c.Fault != "" {
+			w.Store.SetFaults([]world.Fault{{Op: "SetUserinfoWithUserID", Occurrence: 0, Kind: c.Fault}})
+		}
 		t0 := time.Now()
 		rep := obs.Do(w.Handler, hr)
 		t1 := time.Now()
 		host := effHost(SSOCase{Spec: c.Spec, Host: c.Host, Headers: c.Headers})
 		vs, d := c03Compare(c.Spec, host, req, u, rep, t0, t1)
+		if c.Fault != "" && rep.Panic == "" {
+			// a failed lookup may be answered with any error; only a Success response is held to the statement
+			success := false
+			if d.Doc != nil {
+				if r := obs.ReadResponse(obs.FindResponse(d.Root())); r != nil && r.Success() {
+					success = true
+				}
+			}
+			if !success {
+				vs = nil
+			}
+		}
 		if c.Noise && noiseLeak(rep) {
 			vs = append(vs, ev.V("C03/foreign-state-in-reply", "the reply carries data of an unrelated service provider / user that used the provider earlier"))
 		}
@@ -346,7 +368,7 @@ func TestC03(t *testing.T) {
 		}
 		sort.Strings(special)
 		shape := fmt.Sprintf("std=%d/custom=%d", len(expectedAttrs(u))-len(u.Custom), len(u.Custom))
-		classes := []string{"binding/" + shortBinding(req.Binding), "issuer/" + c.Spec.IdP.IssuerMode, "timeformat/" + c.Spec.IdP.TimeFormat, "reply/" + d.Kind, "attrs/" + shape}
+		classes := []string{"binding/" + shortBinding(req.Binding), "issuer/" + c.Spec.IdP.IssuerMode, "timeformat/" + c.Spec.IdP.TimeFormat, "reply/" + d.Kind, "attrs/" + shape, "userlookup-fault/" + c.Fault}
 		for _, s := range special {
 			classes = append(classes, "special/"+s)
 		}
